@@ -16,11 +16,14 @@ GROUPS = {
     "tetragonal": [["C4z"], ["C4z", "Inversion"], ["C4z", "C2x"], ["C4z", "TimeReversal"], ["C2z", "TimeReversal*C4z"]],
     "sc": [["C4z", "C4x"], ["C4z", "C4x", "Inversion"], ["C4z", "C4x", "TimeReversal"]],
     "hexagonal": [["C3z"], ["C6z"], ["C6z", "Mz"], ["C3z", "Inversion", "TimeReversal"]],
+    "fcc": [["C4z", "C4x"], ["C4z", "C4x", "Inversion"], ["C2z", "C2x", "TimeReversal"]],
+    "bcc": [["C4z", "C4x"], ["C4z", "C4x", "Inversion"], ["C4z", "TimeReversal"]],
 }
 
 
 def equal_axes(kind):
-    return {"tetragonal": [(0, 1)], "hexagonal": [(0, 1)], "sc": [(0, 1), (1, 2)]}.get(kind, [])
+    return {"tetragonal": [(0, 1)], "hexagonal": [(0, 1)], "sc": [(0, 1), (1, 2)], "fcc": [(0, 1), (1, 2)],
+            "bcc": [(0, 1), (1, 2)]}.get(kind, [])
 
 
 @st.composite
@@ -95,6 +98,8 @@ class Capture:
 
     def __init__(self):
         self.K_list = None
+        self.process_calls = 0
+        self.global_merges = 0
         self.snapshots = []  # dicts: i_iter, factors(list), n, data{key: array}
 
     def snapshot(self, resultdict, i_iter):
@@ -122,13 +127,32 @@ def capture_run(cap):
         cap.snapshot(self, i_iter)
         return orig_save(self, prefix, suffix, i_iter)
 
+    import wannierberri.run_grid as rg
+    orig_process = rg.process
+    orig_excl = rg.exclude_equiv_points
+
+    def process(paralfunc, K_list, *a, **k):
+        cap.K_list = K_list          # also set on restart, where the list is read from the pickle file
+        cap.process_calls += 1
+        return orig_process(paralfunc, K_list, *a, **k)
+
+    def exclude_equiv_points(K_list, new_points=None):
+        n0 = len(K_list)
+        r = orig_excl(K_list, new_points=new_points)
+        cap.global_merges += n0 - len(K_list)   # new points deleted by the merge across different parents
+        return r
+
     Grid.get_K_list = get_K_list
     ResultDict.savedata = savedata
+    rg.process = process
+    rg.exclude_equiv_points = exclude_equiv_points
     try:
         yield cap
     finally:
         Grid.get_K_list = orig_get
         ResultDict.savedata = orig_save
+        rg.process = orig_process
+        rg.exclude_equiv_points = orig_excl
 
 
 def eval_K_from_scratch(system, grid, K, calculators, symmetrize, parameters_K=None):
